@@ -115,6 +115,10 @@ def run_history(lib, case, run: Run, tag=None):
                 k = lib.sticky_member(m)
                 k.member_assignment = None
                 k.generation = lib.Sticky.DEFAULT_GENERATION_ID
+            # optionally one OLD member missed the previous round's result and reports the generation before
+            if op.get("stale") not in (None, "?") and op["stale"] in subs:
+                stale_member = op["stale"]
+                run.count("add_rounds_with_a_stale_old_member")
         elif kind == "stale":
             stale_member = op["member"]
         md = {}
@@ -282,6 +286,7 @@ def random_history(rng):
         if can_stale:
             choices += ["stale", "stale", "stale"]
         k = rng.choice(choices)
+        was_add = can_stale
         can_stale = False
         if k == "same":
             ops.append({"op": "same"})
@@ -293,8 +298,11 @@ def random_history(rng):
         elif k == "add":
             n = min(rng.randint(1, 2), len(spare), 12 - len(present))
             new = [spare.pop() for _ in range(n)]
-            ops.append({"op": "add", "members": {
-                m: (list(common) if identical else rng.sample(topics, rng.randint(1, len(topics)))) for m in new}})
+            op = {"op": "add", "members": {
+                m: (list(common) if identical else rng.sample(topics, rng.randint(1, len(topics)))) for m in new}}
+            if was_add and rng.random() < 0.5:
+                op["stale"] = "?"      # resolved at run time: an old member that lost partitions in the preceding round
+            ops.append(op)
             present += new
             can_stale = True
         elif k == "stale":
@@ -306,6 +314,19 @@ def resolve_stale(lib, case, rng_choice):
     """'stale' ops name a member that lost partitions in the preceding round; that is only known after
     running the prefix.  Replaces {"member": "?"} in place (or turns the op into 'same')."""
     for i, op in enumerate(case["ops"]):
+        if op["op"] == "add" and op.get("stale") == "?":
+            prefix = dict(case, ops=case["ops"][:i])
+            hist = []
+            _trace(lib, prefix, hist)
+            cands = []
+            if len(hist) >= 2:
+                prev, new, members = hist[-2][0], hist[-1][0], hist[-2][1]
+                cands = [m for m in lost_partitions(prev, new, members) if m in hist[-1][1]]
+            if cands:
+                op["stale"] = rng_choice(sorted(cands))
+            else:
+                op.pop("stale")
+            continue
         if op["op"] == "stale" and op["member"] == "?":
             probe = Run()
             prefix = dict(case, ops=case["ops"][:i])
@@ -343,6 +364,8 @@ def _trace(lib, case, hist):
                     k = lib.sticky_member(m)
                     k.member_assignment = None
                     k.generation = lib.Sticky.DEFAULT_GENERATION_ID
+                if op.get("stale") not in (None, "?"):
+                    stale = op["stale"]
             elif op["op"] == "stale":
                 stale = op["member"]
         md = {}
@@ -383,6 +406,9 @@ def _variants(case):
                         break
                     op = dict(op, members=g)
                 elif op["op"] == "stale" and op["member"] == m:
+                    ok = False
+                    break
+                elif op["op"] == "add" and op.get("stale") == m:
                     ok = False
                     break
                 nops.append(op)
